@@ -266,7 +266,11 @@ def stage_model(pid, log):
     outdir = os.path.join(WORK, pid)
     files = sorted(glob.glob(os.path.join(outdir, "cases_*.v")))
     results = []
-    with ThreadPoolExecutor(max_workers=16) as ex:
+    # coqc needs roughly 400 bytes of memory per byte of case file (list literals): keep the
+    # shards that run at the same time under ~40 GB
+    biggest = max([os.path.getsize(f) for f in files] + [1])
+    workers = max(1, min(16, int(40e9 / (biggest * 400))))
+    with ThreadPoolExecutor(max_workers=workers) as ex:
         results = list(ex.map(run_coqc_cases, files))
     mism, errors, groups_seen = [], [], 0
     for path, rc, out, bad in results:
